@@ -1,205 +1,1058 @@
 /-
 Props/C17.lean — malformed inputs are rejected at assignment, valid ones stored faithfully.
-Validator model: Model/Validators.lean; per-attribute configuration: Gen/Attr.lean (regenerated
-from the setters' source on every run).
-/- FULL: every public attribute of every class.  Proved here: the generic vector validator
-   accepts exactly "None or k numbers (positive where documented)" for every k, the table rows of
-   all vector attributes are the documented ones, rejected assignments keep the stored value.
-   Scalar attributes, orientation, CylinderSegment.dimension, Polyline.vertices, pixel and
-   handedness are exercised by the grammar oracle on the real setters and constructors. -/
+Validator model: Model/Validators.lean (mirrors magpylib/_src/input_checks.py and the setters branch by
+branch); documented formats: Spec/ValidSpec.lean (written top-down, independently of the validators);
+per-attribute configuration and the control-flow skeleton of the modelled functions: Gen/Attr.lean
+(regenerated from the source on every run).
+/- FULL: every public attribute of every class raises only the library's input error.
+   Proved here: for every validator of input_checks.py that an attribute setter uses (scalar, vector,
+   vertices, cylinder segment) and for the pixel / handedness / vertices / position setters:
+   accepted ⇔ documented format, every rejection is MagpylibBadUserInput, the stored value is the
+   float copy of the input, a rejected assignment changes nothing.
+   Excluded input classes, each with a proved witness that the exclusion is necessary:
+   complex numbers for scalar attributes (TypeError), check_format_input_vector2 (ValueError on a bad
+   shape; rank unchecked), None entries (nan) for the cylinder-segment conditions.
+   orientation, field_func and style arguments are exercised by the grammar oracle only. -/
 -/
-import MagpyVerif.Model.Validators
+import MagpyVerif.Lemmas.Validators
 namespace MagpyVerif.C17
 open MagpyVerif.Valid MagpyVerif.Gen
 
-/-- documented format "k numbers": a sequence of exactly k numeric entries -/
-def IsVecN (k : Nat) (v : PyVal) : Prop := ∃ vals : List Int, vals.length = k ∧ v = .seq (vals.map .num)
+/-! ## the shared building blocks `is_array_like`, `make_float_array`, `check_array_shape` -/
 
-theorem shapeOf_scalar_iff (x : PyVal) : shapeOf x = some [] ↔ ∃ v, x = .num v := by
-  cases x with
-  | none => simp [shapeOf]
-  | str => simp [shapeOf]
-  | num v => simp [shapeOf]
-  | seq xs =>
-    simp only [shapeOf, reduceCtorEq, exists_false, iff_false]
-    cases shapesOf xs with
-    | none => simp
-    | some l =>
-      cases l with
-      | nil => simp
-      | cons s ss => simp only; split <;> simp
+/-- `is_array_like` passes exactly lists, tuples and ndarrays, and raises the library's input error otherwise -/
+theorem array_like_check_iff (v : PyVal) :
+    (isArrayLikeCheck v = .ok () ↔ (∃ xs, v = .seq xs) ∨ (∃ sh d, v = .arr sh d)) ∧
+    (∀ e, isArrayLikeCheck v = .error e → e = .badUserInput) := by
+  cases v <;> simp [isArrayLikeCheck, isArrayLike]
 
-theorem shapesOf_nums (vals : List Int) : shapesOf (vals.map .num) = some (vals.map fun _ => []) := by
-  induction vals with
-  | nil => rfl
-  | cons v vs ih => simp [shapesOf, shapeOf, ih]
+/-- `make_float_array` (under the recorded assumption on `np.array(x, dtype=float)`): the conversion succeeds
+exactly on array_likes in the documented top-down sense — rectangular nestings of float-compatible
+entries, or ndarrays — returning that shape and the entries in row-major order (`prod shape` of them);
+every failure is the library's input error -/
+theorem float_conversion_iff_rectangular (v : PyVal) (a : NDArr) :
+    (makeFloatArray v = .ok a ↔ hasShape a.shape v = true ∧ a.data = flat v) ∧
+    (makeFloatArray v = .ok a → a.data.length = prod a.shape) ∧
+    (∀ e, makeFloatArray v = .error e → e = .badUserInput) := by
+  unfold makeFloatArray
+  cases hsh : shapeOf v with
+  | none =>
+    dsimp only
+    refine ⟨⟨fun h => (by cases h), ?_⟩, fun h => (by cases h), fun e h => (by injection h with h; exact h.symm)⟩
+    rintro ⟨hs, _⟩
+    rw [(shapeOf_iff_hasShape _ v).mpr hs] at hsh
+    cases hsh
+  | some sh =>
+    have hs := (shapeOf_iff_hasShape sh v).mp hsh
+    dsimp only
+    refine ⟨⟨?_, ?_⟩, ?_, fun e h => (by cases h)⟩
+    · intro h; injection h with h; subst h; exact ⟨hs, rfl⟩
+    · rintro ⟨hs', hd⟩
+      have := hasShape_unique _ _ v hs hs'
+      cases a; simp only at this hd; subst this; subst hd; rfl
+    · intro h; injection h with h; subst h; exact flat_length sh v hs
 
-theorem shapesOf_all_scalar (xs : List PyVal) (ss : List (List Nat)) (h : shapesOf xs = some ss)
-    (hall : ∀ s ∈ ss, s = []) : ∃ vals : List Int, xs = vals.map .num := by
-  induction xs generalizing ss with
-  | nil => exact ⟨[], rfl⟩
-  | cons x xs ih =>
-    simp only [shapesOf] at h
-    cases hx : shapeOf x with
-    | none => simp [hx] at h
-    | some s =>
-      cases hxs : shapesOf xs with
-      | none => simp [hx, hxs] at h
-      | some ss' =>
-        simp only [hx, hxs, Option.some.injEq] at h
+/-- `check_array_shape` (for `dims` without rank 0) passes exactly when the rank is one of `dims`, the last
+axis has the size `shape_m1` (or "any") and the first axis the size `length` (or None); every failure is the
+library's input error -/
+theorem array_shape_check_iff_documented (a : NDArr) (dims : List Nat) (m1 : Int) (len : Nat) (h0 : 0 ∉ dims) :
+    (checkArrayShape a dims m1 len = .ok () ↔ shapeCond dims m1 len a.shape) ∧
+    (∀ e, checkArrayShape a dims m1 len = .error e → e = .badUserInput) :=
+  ⟨checkArrayShape_ok_iff a dims m1 len h0, fun e h => checkArrayShape_error a dims m1 len h0 e h⟩
+
+/-- the hypothesis `0 ∉ dims` is necessary: with rank 0 allowed, `inp.shape[-1]` raises IndexError on a 0-d array
+(no setter of the regenerated table allows rank 0: `table_rejects_with_input_error`) -/
+example : checkArrayShape ⟨[], [.fin 2]⟩ [0, 1] 3 0 = .error (.foreign "IndexError") := by rfl
+example : makeFloatArray (.seq [.seq [.num 1, .bool true], .seq [.str "3", .none]]) =
+    .ok ⟨[2, 2], [.fin 1, .fin 1, .fin 3, .nan]⟩ := by rfl
+example : makeFloatArray (.seq [.seq [.num 1, .num 2], .seq [.num 3]]) = .error .badUserInput := by rfl
+example : makeFloatArray (.seq [.num 1, .cplx]) = .error .badUserInput := by rfl
+example : makeFloatArray (.seq [.num 1, .str "abc"]) = .error .badUserInput := by rfl
+
+/-! ## the generic vector validator `check_format_input_vector` -/
+
+/-- C17 (generic vector validator, any configuration without rank 0 and without reshape):
+`check_format_input_vector` returns normally exactly for `None` (where allowed) and for array_likes whose
+shape meets the documented (dims, shape_m1, length) condition and — where `forbid_negative0` — have no
+entry `<= 0`; what it returns is the float copy of the input with that shape. -/
+theorem vector_ok_iff (cfg : Attr.Row) (h0 : 0 ∉ cfg.dims) (hr : cfg.reshape = false) (v : PyVal) (s : Stored) :
+    checkVector cfg v = .ok s ↔
+      (cfg.allowNone = true ∧ v = .none ∧ s = .none) ∨
+      (isArrayLike v = true ∧ ∃ sh, hasShape sh v = true ∧ shapeCond cfg.dims cfg.shapeM1 cfg.length sh ∧
+        (cfg.forbidNegative0 = true → ∀ x ∈ flat v, x.le (.fin 0) = false) ∧ s = .array ⟨sh, flat v⟩) := by
+  by_cases hv : v = .none
+  · subst hv
+    rw [checkVector_none]
+    cases cfg.allowNone
+    · simp [isArrayLike]
+    · simp only [if_true, Except.ok.injEq, isArrayLike, true_and, Bool.false_eq_true, false_and, or_false]
+      exact eq_comm
+  by_cases ha : isArrayLike v = true
+  · rw [checkVector_of_arrayLike cfg v ha]
+    simp only [hv, false_and, and_false, false_or, ha, true_and]
+    cases hsh : shapeOf v with
+    | none =>
+      simp only [reduceCtorEq, false_iff, not_exists, not_and]
+      intro sh hs
+      rw [(shapeOf_iff_hasShape sh v).mpr hs] at hsh
+      cases hsh
+    | some sh0 =>
+      have hs0 := (shapeOf_iff_hasShape sh0 v).mp hsh
+      simp only [afterConvert, hr, Bool.false_eq_true, if_false]
+      cases hc : checkArrayShape ⟨sh0, flat v⟩ cfg.dims cfg.shapeM1 cfg.length with
+      | error e =>
+        simp only [reduceCtorEq, false_iff, not_exists, not_and]
+        intro sh hs hcond
+        have := hasShape_unique sh sh0 v hs hs0
+        subst this
+        have := (checkArrayShape_ok_iff ⟨sh, flat v⟩ cfg.dims cfg.shapeM1 cfg.length h0).mpr hcond
+        rw [this] at hc
+        cases hc
+      | ok u =>
+        have hcond := (checkArrayShape_ok_iff ⟨sh0, flat v⟩ cfg.dims cfg.shapeM1 cfg.length h0).mp hc
+        by_cases hf : (cfg.forbidNegative0 && (flat v).any fun x => x.le (.fin 0)) = true
+        · simp only [hf, if_true, reduceCtorEq, false_iff, not_exists, not_and]
+          intro sh _ _ hall
+          simp only [Bool.and_eq_true, List.any_eq_true] at hf
+          obtain ⟨hf0, x, hx, hle⟩ := hf
+          rw [hall hf0 x hx] at hle
+          cases hle
+        · simp only [hf, Bool.false_eq_true, if_false, Except.ok.injEq]
+          constructor
+          · intro h
+            refine ⟨sh0, hs0, hcond, ?_, h.symm⟩
+            intro hf0 x hx
+            simp only [hf0, Bool.true_and, List.any_eq_true, not_exists, not_and, Bool.not_eq_true] at hf
+            exact hf x hx
+          · rintro ⟨sh, hs, _, _, rfl⟩
+            rw [hasShape_unique sh sh0 v hs hs0]
+  · have ha' : isArrayLike v = false := by simpa using ha
+    rw [checkVector_of_not_arrayLike cfg v ha' hv]
+    simp [hv, ha']
+
+/-- C17 (never a foreign error): whatever `check_format_input_vector` rejects, it rejects with the
+library's input error — for every configuration that does not allow rank 0 and reshapes to (-1, 3)
+only when the last axis is required to be 3. -/
+theorem vector_error_is_bad (cfg : Attr.Row) (h0 : 0 ∉ cfg.dims) (hr : cfg.reshape = true → cfg.shapeM1 = 3)
+    (v : PyVal) (e : Err) (h : checkVector cfg v = .error e) : e = .badUserInput := by
+  by_cases hv : v = .none
+  · subst hv
+    rw [checkVector_none] at h
+    cases hn : cfg.allowNone <;> simp [hn] at h
+    exact h.symm
+  by_cases ha : isArrayLike v = true
+  · rw [checkVector_of_arrayLike cfg v ha] at h
+    cases hsh : shapeOf v with
+    | none => simp only [hsh] at h; injection h with h; exact h.symm
+    | some sh =>
+      simp only [hsh, afterConvert] at h
+      cases hc : checkArrayShape ⟨sh, flat v⟩ cfg.dims cfg.shapeM1 cfg.length with
+      | error e' =>
+        simp only [hc] at h
+        injection h with h
         subst h
-        have hs : s = [] := hall s (by simp)
-        subst hs
-        obtain ⟨v, rfl⟩ := (shapeOf_scalar_iff x).mp hx
-        obtain ⟨vals, rfl⟩ := ih ss' hxs (fun s hs => hall s (by simp [hs]))
-        exact ⟨v :: vals, rfl⟩
+        exact checkArrayShape_error _ _ _ _ h0 _ hc
+      | ok u =>
+        simp only [hc] at h
+        have hcond := (checkArrayShape_ok_iff ⟨sh, flat v⟩ cfg.dims cfg.shapeM1 cfg.length h0).mp hc
+        cases hrs : cfg.reshape with
+        | false =>
+          simp only [hrs, Bool.false_eq_true, if_false] at h
+          split at h
+          · injection h with h; exact h.symm
+          · cases h
+        | true =>
+          simp only [hrs, if_true] at h
+          split at h
+          · injection h with h; exact h.symm
+          · split at h
+            · exfalso
+              rename_i hmod
+              have h3 := hr hrs
+              obtain ⟨_, hlast, _⟩ := hcond
+              rw [h3] at hlast
+              rcases hlast with hl | ⟨l, hl, hl3⟩
+              · cases hl
+              · have hl3' : l = 3 := by omega
+                subst hl3'
+                obtain ⟨ns, hns⟩ := List.getLast?_eq_some_iff.mp hl
+                simp only at hns
+                simp only [NDArr.size, hns, prod_append_singleton, Nat.mul_mod_left, bne_self_eq_false, Bool.false_eq_true] at hmod
+            · cases h
+  · have ha' : isArrayLike v = false := by simpa using ha
+    rw [checkVector_of_not_arrayLike cfg v ha' hv] at h
+    injection h with h; exact h.symm
 
-theorem shapesOf_length (xs : List PyVal) (ss : List (List Nat)) (h : shapesOf xs = some ss) :
-    ss.length = xs.length := by
-  induction xs generalizing ss with
-  | nil => simp [shapesOf] at h; subst h; rfl
-  | cons x xs ih =>
-    simp only [shapesOf] at h
-    cases hx : shapeOf x with
-    | none => simp [hx] at h
-    | some s =>
-      cases hxs : shapesOf xs with
-      | none => simp [hx, hxs] at h
-      | some ss' =>
-        simp only [hx, hxs, Option.some.injEq] at h
-        subst h
-        simp [ih ss' hxs]
-
-/-- a rank-1 array of length k ≥ 1 is exactly a sequence of k numbers -/
-theorem shapeOf_vec_iff (xs : List PyVal) (k : Nat) (hk : 1 ≤ k) :
-    shapeOf (.seq xs) = some [k] ↔ ∃ vals : List Int, vals.length = k ∧ xs = vals.map .num := by
-  constructor
-  · intro h
-    simp only [shapeOf] at h
-    cases hs : shapesOf xs with
-    | none => simp [hs] at h
-    | some l =>
-      cases l with
-      | nil => simp [hs] at h; omega
-      | cons s ss =>
-        simp only [hs] at h
-        split at h
-        · rename_i hall
-          simp only [Option.some.injEq, List.cons.injEq] at h
-          obtain ⟨h1, h2⟩ := h
-          subst h2
-          have hall' : ∀ t ∈ ([] :: ss), t = [] := by
-            intro t ht
-            rcases List.mem_cons.mp ht with rfl | ht
-            · rfl
-            · exact eq_of_beq (List.all_eq_true.mp hall t ht)
-          obtain ⟨vals, rfl⟩ := shapesOf_all_scalar xs _ hs hall'
-          refine ⟨vals, ?_, rfl⟩
-          have := shapesOf_length _ _ hs
-          simp at this
-          omega
-        · simp at h
-  · rintro ⟨vals, hl, rfl⟩
-    simp only [shapeOf, shapesOf_nums]
-    cases vals with
-    | nil => simp at hl; omega
-    | cons v vs =>
-      simp only [List.map_cons]
-      have : (vs.map fun _ => ([] : List Nat)).all (· == []) = true := by simp
-      simp only [this, if_true, List.length_map]
-      simp at hl; simp [hl]
-
-theorem leavesL_nums (vals : List Int) : leavesL (vals.map .num) = vals := by
-  induction vals with
-  | nil => rfl
-  | cons v vs ih => simp [leavesL, leaves, ih]
+/-! ## attributes documented as "array_like, shape (k,)": polarization, magnetization, moment, Cuboid/Cylinder dimension -/
 
 /-- configuration "k numbers or None" -/
 def vecCfg (cls attr : String) (k : Nat) (pos : Bool) : Attr.Row :=
   ⟨cls, attr, "check_format_input_vector", [1], k, 0, true, false, pos, false⟩
 
-/-- C17 (accepts exactly the documented format): an attribute documented as "array_like of k
-numbers, or None" accepts a value iff it is None or a sequence of exactly k numbers (all
-positive where the documentation says so); everything else — other lengths, nesting, strings,
-scalars — raises the library's input error. -/
-theorem accepts_iff_documented (cls attr : String) (k : Nat) (hk : 1 ≤ k) (pos : Bool) (v : PyVal) :
-    (∃ s, checkVector (vecCfg cls attr k pos) v = .ok s) ↔
-      (v = .none ∨ ∃ vals : List Int, vals.length = k ∧ v = .seq (vals.map .num) ∧
-        (pos = true → ∀ x ∈ vals, 0 < x)) := by
-  cases v with
-  | none => simp [checkVector, vecCfg]
-  | num x => simp [checkVector]
-  | str => simp [checkVector]
-  | seq xs =>
-    simp only [reduceCtorEq, false_or, PyVal.seq.injEq]
+/-- what the validator of a "shape (k,)" attribute returns, and when -/
+theorem vec_ok_iff (cls attr : String) (k : Nat) (pos : Bool) (v : PyVal) (s : Stored) :
+    checkVector (vecCfg cls attr k pos) v = .ok s ↔
+      (v = .none ∧ s = .none) ∨
+      (isArrayLike v = true ∧ hasShape [k] v = true ∧ (pos = true → ∀ x ∈ flat v, x.le (.fin 0) = false) ∧
+        s = .array ⟨[k], flat v⟩) := by
+  rw [vector_ok_iff _ (by simp [vecCfg]) rfl]
+  simp only [vecCfg, true_and, shapeCond_vec]
+  constructor
+  · rintro (h | ⟨ha, sh, hs, rfl, hp, rfl⟩)
+    · exact Or.inl h
+    · exact Or.inr ⟨ha, hs, hp, rfl⟩
+  · rintro (h | ⟨ha, hs, hp, rfl⟩)
+    · exact Or.inl h
+    · exact Or.inr ⟨ha, [k], hs, rfl, hp, rfl⟩
+
+/-- C17 (accepts exactly the documented format): an attribute documented as "array_like of shape (k,), or
+None" accepts a value iff it is None or a list/tuple/ndarray of exactly k float-compatible entries, none
+of them `<= 0` where the documentation says so; everything else — other lengths, nesting, ragged rows,
+strings, scalars, complex entries, other objects — is rejected. -/
+theorem accepts_iff_documented (cls attr : String) (k : Nat) (pos : Bool) (v : PyVal) :
+    (∃ s, checkVector (vecCfg cls attr k pos) v = .ok s) ↔ docVec k pos v = true := by
+  by_cases hv : v = .none
+  · subst hv
+    simp [vec_ok_iff, docVec]
+  · rw [docVec_of_ne_none k pos v hv]
+    simp only [vec_ok_iff, hv, false_and, false_or, Bool.and_eq_true, Bool.or_eq_true, Bool.not_eq_true',
+      List.all_eq_true]
     constructor
-    · rintro ⟨s, hs⟩
-      simp only [checkVector, vecCfg] at hs
-      cases hsh : shapeOf (.seq xs) with
-      | none => simp [hsh] at hs
-      | some sh =>
-        simp only [hsh] at hs
-        by_cases hc : (([1] : List Nat).contains sh.length && (((k : Int) == -1) || (sh.getLast?.map (fun (j : Nat) => (j : Int))) == some (k : Int)) &&
-            (((0 : Nat) == 0) || sh.head? == some 0)) = true
-        · have hshape : sh = [k] := by
-            simp only [Bool.and_eq_true, Bool.or_eq_true, beq_iff_eq] at hc
-            have h1 : sh.length = 1 := by simpa using hc.1.1
-            match sh, h1 with
-            | [a], _ =>
-              have := hc.1.2
-              simp at this
-              have hak : a = k := by omega
-              rw [hak]
-          subst hshape
-          obtain ⟨vals, hl, rfl⟩ := (shapeOf_vec_iff xs k hk).mp hsh
-          refine ⟨vals, hl, rfl, ?_⟩
-          intro hp x hx
-          subst hp
-          simp only [hc, Bool.not_true, Bool.false_eq_true, if_false, Bool.false_and, Bool.true_and] at hs
-          by_cases hany : ((leaves (PyVal.seq (vals.map .num))).any fun x => decide (x ≤ 0)) = true
-          · simp [hany] at hs
-          · simp only [leaves, leavesL_nums, List.any_eq_true, decide_eq_true_eq, not_exists, not_and, Int.not_le] at hany
-            exact hany x hx
-        · have hc' := eq_false_of_ne_true hc
-          simp only [hc', Bool.not_false, if_true] at hs
-          cases hs
-    · rintro ⟨vals, hl, rfl, hpos⟩
-      have hsh := (shapeOf_vec_iff (vals.map .num) k hk).mpr ⟨vals, hl, rfl⟩
-      simp only [checkVector, vecCfg, hsh]
-      have hc : (([1] : List Nat).contains [k].length && (((k : Int) == -1) || ([k].getLast?.map (fun (j : Nat) => (j : Int))) == some (k : Int)) &&
-          (((0 : Nat) == 0) || [k].head? == some 0)) = true := by simp
-      simp only [hc, Bool.not_true, Bool.false_eq_true, if_false, Bool.false_and, leaves, leavesL_nums]
+    · rintro ⟨s, ha, hs, hp, _⟩
+      refine ⟨⟨ha, hs⟩, ?_⟩
       cases pos with
-      | false => simp
+      | false => exact Or.inl rfl
+      | true => exact Or.inr (hp rfl)
+    · rintro ⟨⟨ha, hs⟩, hp⟩
+      refine ⟨_, ha, hs, ?_, rfl⟩
+      intro hpos
+      subst hpos
+      simpa using hp
+
+/-- the documented format read for plain numbers: a list/tuple of integers/floats is accepted iff it has
+exactly k entries, all positive where sizes are meant (the statement of this theorem before the grammar
+had bool / None / string entries) -/
+theorem accepts_numbers_iff (cls attr : String) (k : Nat) (pos : Bool) (vals : List Int) :
+    (∃ s, checkVector (vecCfg cls attr k pos) (.seq (vals.map .num)) = .ok s) ↔
+      (vals.length = k ∧ (pos = true → ∀ x ∈ vals, 0 < x)) := by
+  rw [accepts_iff_documented, docVec_of_ne_none _ _ _ (by simp)]
+  simp only [isArrayLike, Bool.true_and, Bool.and_eq_true, hasShape_nums, flat, flatL_nums, Bool.or_eq_true,
+    Bool.not_eq_true', List.all_eq_true, List.mem_map, forall_exists_index, and_imp,
+    forall_apply_eq_imp_iff₂, FVal.le, decide_eq_false_iff_not, Int.not_le, and_congr_right_iff]
+  intro _
+  cases pos <;> simp
+
+/-- C17 (stored value): what an accepted assignment stores is `None` for `None` and otherwise the float
+copy of the k entries, shape (k,) -/
+theorem stored_is_float_copy (cls attr : String) (k : Nat) (pos : Bool) (v : PyVal) (s : Stored)
+    (h : checkVector (vecCfg cls attr k pos) v = .ok s) :
+    (v = .none ∧ s = .none) ∨ (s = .array ⟨[k], flat v⟩ ∧ (flat v).length = k) := by
+  rcases (vec_ok_iff cls attr k pos v s).mp h with h | ⟨_, hs, _, rfl⟩
+  · exact Or.inl h
+  · exact Or.inr ⟨rfl, by simpa [prod] using flat_length [k] v hs⟩
+
+example : checkVector (vecCfg "Cuboid" "dimension" 3 true) (.seq [.num 1, .num 2, .num 3]) = .ok (.array ⟨[3], [.fin 1, .fin 2, .fin 3]⟩) := by rfl
+example : checkVector (vecCfg "Cuboid" "dimension" 3 true) (.seq [.num 1, .num (-2), .num 3]) = .error .badUserInput := by rfl
+example : checkVector (vecCfg "Cuboid" "dimension" 3 true) (.seq [.seq [.num 1, .num 2, .num 3]]) = .error .badUserInput := by rfl
+example : checkVector (vecCfg "Cuboid" "dimension" 3 true) (.arr [3] [1, 2, 3]) = .ok (.array ⟨[3], [.fin 1, .fin 2, .fin 3]⟩) := by rfl
+example : docVec 3 true (.seq [.num 1, .bool true, .num 3]) = true := by decide
+/-- docstring and code disagree: a `None` entry becomes nan and passes the "no value <= 0" test -/
+example : checkVector (vecCfg "Cuboid" "dimension" 3 true) (.seq [.num 1, .none, .num 3]) = .ok (.array ⟨[3], [.fin 1, .nan, .fin 3]⟩) := by rfl
+
+/-! ## attributes documented as "array_like, shape (n,3)": Triangle / Tetrahedron / Polyline vertices -/
+
+/-- configuration "None or n rows of 3 numbers", `L = 0`: any n -/
+def rowsCfg (cls attr : String) (L : Nat) : Attr.Row :=
+  ⟨cls, attr, "check_format_input_vector", [2], 3, L, true, false, false, false⟩
+
+theorem rows_ok_iff (cls attr : String) (L : Nat) (v : PyVal) (s : Stored) :
+    checkVector (rowsCfg cls attr L) v = .ok s ↔
+      (v = .none ∧ s = .none) ∨
+      (isArrayLike v = true ∧ ∃ n, hasShape [n, 3] v = true ∧ (L = 0 ∨ n = L) ∧ s = .array ⟨[n, 3], flat v⟩) := by
+  rw [vector_ok_iff _ (by simp [rowsCfg]) rfl]
+  simp only [rowsCfg, true_and, shapeCond_rows, Bool.false_eq_true, false_imp_iff]
+  constructor
+  · rintro (h | ⟨ha, sh, hs, ⟨n, rfl, hn⟩, rfl⟩)
+    · exact Or.inl h
+    · exact Or.inr ⟨ha, n, hs, hn, rfl⟩
+  · rintro (h | ⟨ha, n, hs, hn, rfl⟩)
+    · exact Or.inl h
+    · exact Or.inr ⟨ha, [n, 3], hs, ⟨n, rfl, hn⟩, rfl⟩
+
+/-- C17: a vertices attribute documented as "shape (L,3)" (Triangle: L = 3, Tetrahedron: L = 4) accepts
+exactly None and array_likes of L rows of 3 float-compatible entries -/
+theorem fixed_rows_accepts_iff_documented (cls attr : String) (L : Nat) (hL : L ≠ 0) (v : PyVal) :
+    (∃ s, checkVector (rowsCfg cls attr L) v = .ok s) ↔ docRows (some L) 0 v = true := by
+  by_cases hv : v = .none
+  · subst hv; simp [rows_ok_iff, docRows]
+  · rw [docRows_of_ne_none _ _ v hv]
+    simp only [rows_ok_iff, hv, false_and, false_or, hL, Bool.and_eq_true, beq_iff_eq]
+    constructor
+    · rintro ⟨s, ha, n, hs, hn, _⟩
+      have := outerLen_of_hasShape n [3] v hs
+      subst hn
+      rw [this]
+      exact ⟨⟨ha, hs⟩, rfl⟩
+    · rintro ⟨⟨ha, hs⟩, hn⟩
+      rw [hn] at hs
+      exact ⟨_, ha, L, hs, rfl, rfl⟩
+
+theorem triangleCfg_eq : triangleCfg = rowsCfg "Triangle" "vertices" 3 := rfl
+theorem tetrahedronCfg_eq : tetrahedronCfg = rowsCfg "Tetrahedron" "vertices" 4 := rfl
+theorem verticesCfg_eq : verticesCfg = rowsCfg "input_checks" "check_format_input_vertices" 0 := rfl
+
+/-- C17 (Triangle.vertices): accepted ⇔ None or shape (3,3); everything else — 2 or 4 vertices, rows of 2
+or 4 coordinates, ragged or deeper nesting — is rejected -/
+theorem triangle_accepts_iff_documented (v : PyVal) :
+    (∃ s, checkVector triangleCfg v = .ok s) ↔ docRows (some 3) 0 v = true :=
+  fixed_rows_accepts_iff_documented _ _ 3 (by decide) v
+
+/-- C17 (Tetrahedron.vertices): accepted ⇔ None or shape (4,3) -/
+theorem tetrahedron_accepts_iff_documented (v : PyVal) :
+    (∃ s, checkVector tetrahedronCfg v = .ok s) ↔ docRows (some 4) 0 v = true :=
+  fixed_rows_accepts_iff_documented _ _ 4 (by decide) v
+
+/-- C17 (stored vertices): an accepted non-None value is stored as its float copy of shape (L,3) with 3·L entries -/
+theorem fixed_rows_stored (cls attr : String) (L : Nat) (hL : L ≠ 0) (v : PyVal) (s : Stored)
+    (h : checkVector (rowsCfg cls attr L) v = .ok s) :
+    (v = .none ∧ s = .none) ∨ (s = .array ⟨[L, 3], flat v⟩ ∧ (flat v).length = L * 3) := by
+  rcases (rows_ok_iff cls attr L v s).mp h with h | ⟨_, n, hs, hn, rfl⟩
+  · exact Or.inl h
+  · have hn' : n = L := by rcases hn with h0 | h0; exact absurd h0 hL; exact h0
+    subst hn'
+    exact Or.inr ⟨rfl, by simpa [prod] using flat_length [n, 3] v hs⟩
+
+/-- `check_format_input_vertices` (Polyline.vertices): what it returns, and when -/
+theorem vertices_ok_iff (v : PyVal) (s : Stored) :
+    checkVertices v = .ok s ↔
+      (v = .none ∧ s = .none) ∨
+      (isArrayLike v = true ∧ ∃ n, 2 ≤ n ∧ hasShape [n, 3] v = true ∧ s = .array ⟨[n, 3], flat v⟩) := by
+  unfold checkVertices
+  rw [verticesCfg_eq]
+  cases h : checkVector (rowsCfg "input_checks" "check_format_input_vertices" 0) v with
+  | error e =>
+    simp only [reduceCtorEq, false_iff, not_or, not_and, not_exists]
+    constructor
+    · rintro rfl _
+      have := (rows_ok_iff "input_checks" "check_format_input_vertices" 0 PyVal.none Stored.none).mpr (Or.inl ⟨rfl, rfl⟩)
+      rw [h] at this; cases this
+    · intro ha n _ hs _
+      have := (rows_ok_iff "input_checks" "check_format_input_vertices" 0 v _).mpr (Or.inr ⟨ha, n, hs, Or.inl rfl, rfl⟩)
+      rw [h] at this; cases this
+  | ok s0 =>
+    rcases (rows_ok_iff _ _ 0 v s0).mp h with ⟨rfl, rfl⟩ | ⟨ha, n, hs, _, rfl⟩
+    · simp only [isArrayLike, Bool.false_eq_true, false_and, or_false, true_and, Except.ok.injEq]
+      exact eq_comm
+    · have hv : v ≠ .none := by rintro rfl; simp [isArrayLike] at ha
+      simp only [List.head?_cons, hv, false_and, false_or, ha, true_and]
+      by_cases hn : n < 2
+      · simp only [hn, if_true, reduceCtorEq, false_iff, not_exists, not_and]
+        intro m hm hsm
+        have := hasShape_unique _ _ v hs hsm
+        simp only [List.cons.injEq, and_true] at this
+        omega
+      · simp only [hn, if_false, Except.ok.injEq]
+        constructor
+        · rintro rfl
+          exact ⟨n, by omega, hs, rfl⟩
+        · rintro ⟨m, _, hsm, rfl⟩
+          have := hasShape_unique _ _ v hs hsm
+          rw [this]
+
+/-- C17 (Polyline.vertices): accepted ⇔ None or shape (n,3) with at least two vertices -/
+theorem polyline_vertices_accepts_iff_documented (v : PyVal) :
+    (∃ s, checkVertices v = .ok s) ↔ docRows Option.none 2 v = true := by
+  by_cases hv : v = .none
+  · subst hv; simp [vertices_ok_iff, docRows]
+  · rw [docRows_of_ne_none _ _ v hv]
+    simp only [vertices_ok_iff, hv, false_and, false_or, Bool.and_eq_true, decide_eq_true_eq]
+    constructor
+    · rintro ⟨s, ha, n, hn, hs, _⟩
+      have := outerLen_of_hasShape n [3] v hs
+      rw [this]
+      exact ⟨⟨ha, hs⟩, hn⟩
+    · rintro ⟨⟨ha, hs⟩, hn⟩
+      exact ⟨_, ha, _, hn, hs, rfl⟩
+
+/-- C17: `check_format_input_vertices` rejects only with the library's input error -/
+theorem vertices_error_is_bad (v : PyVal) (e : Err) (h : checkVertices v = .error e) : e = .badUserInput := by
+  unfold checkVertices at h
+  cases hc : checkVector verticesCfg v with
+  | error e' =>
+    simp only [hc] at h
+    injection h with h; subst h
+    exact vector_error_is_bad verticesCfg (by simp [verticesCfg]) (by simp [verticesCfg]) v _ hc
+  | ok s0 =>
+    rw [verticesCfg_eq] at hc
+    rcases (rows_ok_iff _ _ 0 v s0).mp hc with ⟨rfl, rfl⟩ | ⟨ha, n, hs, _, rfl⟩
+    · rw [verticesCfg_eq, hc] at h; cases h
+    · rw [verticesCfg_eq, hc] at h
+      simp only [List.head?_cons] at h
+      split at h
+      · injection h with h; exact h.symm
+      · cases h
+
+example : checkVector triangleCfg (.seq [.seq [.num 0, .num 0, .num 0], .seq [.num 1, .num 0, .num 0], .seq [.num 0, .num 1, .num 0]])
+    = .ok (.array ⟨[3, 3], [.fin 0, .fin 0, .fin 0, .fin 1, .fin 0, .fin 0, .fin 0, .fin 1, .fin 0]⟩) := by rfl
+example : docRows (some 3) 0 (.seq [.seq [.num 0, .num 0, .num 0], .seq [.num 1, .num 0, .num 0], .seq [.num 0, .num 1, .num 0]]) = true := by decide
+example : checkVector triangleCfg (.seq [.seq [.num 0, .num 0, .num 0], .seq [.num 1, .num 0, .num 0]]) = .error .badUserInput := by rfl
+example : checkVertices (.seq [.seq [.num 0, .num 0, .num 0]]) = .error .badUserInput := by rfl
+example : checkVertices (.arr [2, 3] [0, 0, 0, 1, 1, 1]) = .ok (.array ⟨[2, 3], [.fin 0, .fin 0, .fin 0, .fin 1, .fin 1, .fin 1]⟩) := by rfl
+
+/-! ## `position` (class_BaseGeo.py): shape (3,) or (m,3), stored as (m,3) -/
+
+/-- what the validation in the `position` setter returns, and when -/
+theorem position_ok_iff (v : PyVal) (s : Stored) :
+    checkVector positionCfg v = .ok s ↔
+      (isArrayLike v = true ∧
+        ((hasShape [3] v = true ∧ s = .array ⟨[1, 3], flat v⟩) ∨
+         (∃ m, 1 ≤ m ∧ hasShape [m, 3] v = true ∧ s = .array ⟨[m, 3], flat v⟩))) := by
+  by_cases hv : v = .none
+  · subst hv
+    rw [checkVector_none]
+    simp [positionCfg, isArrayLike]
+  by_cases ha : isArrayLike v = true
+  · rw [checkVector_of_arrayLike _ v ha]
+    simp only [ha, true_and]
+    cases hsh : shapeOf v with
+    | none =>
+      have hno : ∀ sh, hasShape sh v ≠ true := by
+        intro sh hs
+        rw [(shapeOf_iff_hasShape sh v).mpr hs] at hsh
+        cases hsh
+      simp only [reduceCtorEq, false_iff, not_or, not_and, not_exists]
+      exact ⟨fun h => absurd h (hno _), fun m _ h => absurd h (hno _)⟩
+    | some sh0 =>
+      have hs0 := (shapeOf_iff_hasShape sh0 v).mp hsh
+      simp only [afterConvert_position]
+      constructor
+      · rintro (⟨rfl, rfl⟩ | ⟨m, hm, rfl, rfl⟩)
+        · exact Or.inl ⟨hs0, rfl⟩
+        · exact Or.inr ⟨m, hm, hs0, rfl⟩
+      · rintro (⟨hs, rfl⟩ | ⟨m, hm, hs, rfl⟩)
+        · exact Or.inl ⟨hasShape_unique _ _ v hs0 hs, rfl⟩
+        · exact Or.inr ⟨m, hm, hasShape_unique _ _ v hs0 hs, rfl⟩
+  · have ha' : isArrayLike v = false := by simpa using ha
+    rw [checkVector_of_not_arrayLike _ v ha' hv]
+    simp [ha']
+
+/-- C17 (position): accepted ⇔ array_like of shape (3,) or (m,3) with m ≥ 1 (None, scalars, an empty
+path, other ranks and row lengths are rejected) -/
+theorem position_accepts_iff_documented (v : PyVal) :
+    (∃ s, checkVector positionCfg v = .ok s) ↔ docPosition v = true := by
+  simp only [position_ok_iff, docPosition, Bool.and_eq_true, Bool.or_eq_true, decide_eq_true_eq]
+  constructor
+  · rintro ⟨s, ha, (⟨hs, _⟩ | ⟨m, hm, hs, _⟩)⟩
+    · exact ⟨ha, Or.inl hs⟩
+    · have := outerLen_of_hasShape m [3] v hs
+      rw [this]
+      exact ⟨ha, Or.inr ⟨hs, hm⟩⟩
+  · rintro ⟨ha, (hs | ⟨hs, hm⟩)⟩
+    · exact ⟨_, ha, Or.inl ⟨hs, rfl⟩⟩
+    · exact ⟨_, ha, Or.inr ⟨_, hm, hs, rfl⟩⟩
+
+/-- C17 (position is stored as a path): an accepted position is stored as a float array of shape (m,3),
+m ≥ 1, holding the entries of the input in order (3·m of them) -/
+theorem position_stored (v : PyVal) (s : Stored) (h : checkVector positionCfg v = .ok s) :
+    ∃ m, 1 ≤ m ∧ s = .array ⟨[m, 3], flat v⟩ ∧ (flat v).length = m * 3 := by
+  rcases (position_ok_iff v s).mp h with ⟨_, (⟨hs, rfl⟩ | ⟨m, hm, hs, rfl⟩)⟩
+  · exact ⟨1, by omega, rfl, by simpa [prod] using flat_length [3] v hs⟩
+  · exact ⟨m, hm, rfl, by simpa [prod] using flat_length [m, 3] v hs⟩
+
+/-- C17: the `position` validation rejects only with the library's input error -/
+theorem position_error_is_bad (v : PyVal) (e : Err) (h : checkVector positionCfg v = .error e) : e = .badUserInput :=
+  vector_error_is_bad positionCfg (by simp [positionCfg]) (by simp [positionCfg]) v e h
+
+example : checkVector positionCfg (.seq [.num 1, .num 2, .num 3]) = .ok (.array ⟨[1, 3], [.fin 1, .fin 2, .fin 3]⟩) := by rfl
+example : checkVector positionCfg (.arr [0, 3] []) = .error .badUserInput := by rfl
+example : checkVector positionCfg (.seq [.seq [.num 1, .num 2, .num 3], .seq [.num 4, .num 5, .num 6]])
+    = .ok (.array ⟨[2, 3], [.fin 1, .fin 2, .fin 3, .fin 4, .fin 5, .fin 6]⟩) := by rfl
+example : docPosition (.seq [.seq [.num 1, .num 2, .num 3], .seq [.num 4, .num 5, .num 6]]) = true := by decide
+
+/-! ## `Sensor.pixel` and `Sensor.handedness` (class_Sensor.py) -/
+
+theorem pixelvec_ok_iff (v : PyVal) (s : Stored) :
+    checkVector pixelCfg v = .ok s ↔
+      (v = .none ∧ s = .none) ∨
+      (isArrayLike v = true ∧ ∃ ns : List Nat, hasShape (ns ++ [3]) v = true ∧ ns.length ≤ 18 ∧
+        s = .array ⟨ns ++ [3], flat v⟩) := by
+  rw [vector_ok_iff _ (by decide) rfl]
+  have e1 : pixelCfg.shapeM1 = 3 := rfl
+  have e2 : pixelCfg.length = 0 := rfl
+  have e3 : pixelCfg.allowNone = true := rfl
+  have e4 : pixelCfg.forbidNegative0 = false := rfl
+  simp only [e1, e2, e3, e4, shapeCond_pixel, true_and, Bool.false_eq_true, false_imp_iff]
+  constructor
+  · rintro (h | ⟨ha, sh, hs, ⟨ns, rfl, hn⟩, rfl⟩)
+    · exact Or.inl h
+    · exact Or.inr ⟨ha, ns, hs, hn, rfl⟩
+  · rintro (h | ⟨ha, ns, hs, hn, rfl⟩)
+    · exact Or.inl h
+    · exact Or.inr ⟨ha, _, hs, ⟨ns, rfl, hn⟩, rfl⟩
+
+/-- what the validation in the `pixel` setter returns, and when -/
+theorem pixel_ok_iff (v : PyVal) (s : Stored) :
+    checkPixel v = .ok s ↔
+      (v = .none ∧ s = .none) ∨
+      (isArrayLike v = true ∧ ∃ ns : List Nat, hasShape (ns ++ [3]) v = true ∧ ns.length ≤ 18 ∧ 0 ∉ ns ∧
+        s = .array ⟨ns ++ [3], flat v⟩) := by
+  unfold checkPixel
+  cases h : checkVector pixelCfg v with
+  | error e =>
+    simp only [reduceCtorEq, false_iff, not_or, not_and, not_exists]
+    constructor
+    · rintro rfl _
+      have := (pixelvec_ok_iff PyVal.none Stored.none).mpr (Or.inl ⟨rfl, rfl⟩)
+      rw [h] at this; cases this
+    · intro ha ns hs hn _ _
+      have := (pixelvec_ok_iff v _).mpr (Or.inr ⟨ha, ns, hs, hn, rfl⟩)
+      rw [h] at this; cases this
+  | ok s0 =>
+    rcases (pixelvec_ok_iff v s0).mp h with ⟨rfl, rfl⟩ | ⟨ha, ns, hs, hn, rfl⟩
+    · simp only [isArrayLike, Bool.false_eq_true, false_and, or_false, true_and, Except.ok.injEq]
+      exact eq_comm
+    · have hv : v ≠ .none := by rintro rfl; simp [isArrayLike] at ha
+      simp only [hv, false_and, false_or, ha, true_and, NDArr.size]
+      have hz : (prod (ns ++ [3]) == 0) = true ↔ 0 ∈ ns := by
+        rw [beq_iff_eq, prod_eq_zero_iff]
+        simp
+      by_cases h0 : 0 ∈ ns
+      · simp only [hz.mpr h0, if_true, reduceCtorEq, false_iff, not_exists, not_and]
+        intro ms hms _ hm0
+        have := hasShape_unique _ _ v hs hms
+        have := List.append_inj_left' this rfl
+        subst this
+        exact absurd h0 hm0
+      · have : (prod (ns ++ [3]) == 0) = false := by
+          cases hb : (prod (ns ++ [3]) == 0)
+          · rfl
+          · exact absurd (hz.mp hb) h0
+        simp only [this, Bool.false_eq_true, if_false, Except.ok.injEq]
+        constructor
+        · rintro rfl
+          exact ⟨ns, hs, hn, h0, rfl⟩
+        · rintro ⟨ms, hms, _, _, rfl⟩
+          rw [hasShape_unique _ _ v hs hms]
+
+/-- C17 (Sensor.pixel): accepted ⇔ None or array_like of shape (3,) or (n1,…,nk,3), k ≤ 18, without an
+empty axis -/
+theorem pixel_accepts_iff_documented (v : PyVal) : (∃ s, checkPixel v = .ok s) ↔ DocPixel v := by
+  simp only [pixel_ok_iff, DocPixel]
+  constructor
+  · rintro ⟨s, (⟨hv, _⟩ | ⟨ha, ns, hs, hn, h0, _⟩)⟩
+    · exact Or.inl hv
+    · exact Or.inr ⟨ha, ns, hs, hn, h0⟩
+  · rintro (hv | ⟨ha, ns, hs, hn, h0⟩)
+    · exact ⟨_, Or.inl ⟨hv, rfl⟩⟩
+    · exact ⟨_, Or.inr ⟨ha, ns, hs, hn, h0, rfl⟩⟩
+
+/-- C17 (pixel is stored as a float copy of the same shape) -/
+theorem pixel_stored (v : PyVal) (s : Stored) (h : checkPixel v = .ok s) :
+    (v = .none ∧ s = .none) ∨ ∃ sh, hasShape sh v = true ∧ s = .array ⟨sh, flat v⟩ ∧ (flat v).length = prod sh ∧ prod sh ≠ 0 := by
+  rcases (pixel_ok_iff v s).mp h with h | ⟨_, ns, hs, _, h0, rfl⟩
+  · exact Or.inl h
+  · refine Or.inr ⟨_, hs, rfl, flat_length _ v hs, ?_⟩
+    rw [Ne, prod_eq_zero_iff]
+    simpa using h0
+
+/-- C17: the `pixel` validation rejects only with the library's input error -/
+theorem pixel_error_is_bad (v : PyVal) (e : Err) (h : checkPixel v = .error e) : e = .badUserInput := by
+  unfold checkPixel at h
+  cases hc : checkVector pixelCfg v with
+  | error e' =>
+    simp only [hc] at h
+    injection h with h; subst h
+    exact vector_error_is_bad pixelCfg (by decide) (by simp [pixelCfg]) v _ hc
+  | ok s0 =>
+    simp only [hc] at h
+    cases s0 with
+    | array a =>
+      simp only at h
+      split at h
+      · injection h with h; exact h.symm
+      · cases h
+    | _ => cases h
+
+/-- C17 (Sensor.handedness): accepted ⇔ the string "right" or "left"; the string itself is stored; every
+other value — other strings, lists, numbers, None — raises the library's input error -/
+theorem handedness_accepts_iff_documented (v : PyVal) :
+    ((∃ s, checkHandedness v = .ok s) ↔ docHandedness v = true) ∧
+    (docHandedness v = false → checkHandedness v = .error .badUserInput) ∧
+    (∀ s, checkHandedness v = .ok s → ∃ t, v = .str t ∧ s = .text t) := by
+  cases v with
+  | str t =>
+    simp only [checkHandedness, docHandedness]
+    by_cases ht : (t == "right" || t == "left") = true
+    · simp [ht]
+    · simp [ht]
+  | _ => simp [checkHandedness, docHandedness]
+
+example : checkPixel (.seq [.seq [.num 1, .num 2, .num 3], .seq [.num 4, .num 5, .num 6]])
+    = .ok (.array ⟨[2, 3], [.fin 1, .fin 2, .fin 3, .fin 4, .fin 5, .fin 6]⟩) := by rfl
+example : checkPixel (.arr [2, 0, 3] []) = .error .badUserInput := by rfl
+example : checkPixel (.arr [0, 3] []) = .error .badUserInput := by rfl
+example : DocPixel (.seq [.seq [.num 1, .num 2, .num 3], .seq [.num 4, .num 5, .num 6]]) :=
+  Or.inr ⟨rfl, [2], by decide, by decide, by decide⟩
+example : checkHandedness (.str "left") = .ok (.text "left") := by simp [checkHandedness]
+example : checkHandedness (.seq [.str "left"]) = .error .badUserInput := by rfl
+
+/-! ## `CylinderSegment.dimension`: check_format_input_cylinder_segment -/
+
+theorem segmentCfg_eq : segmentCfg = vecCfg "input_checks" "check_format_input_cylinder_segment" 5 false := rfl
+
+/-- what `check_format_input_cylinder_segment` returns, and when (entries other than None/nan) -/
+theorem cylseg_ok_iff (v : PyVal) (s : Stored) (hnan : FVal.nan ∉ flat v) :
+    checkCylSeg v = .ok s ↔
+      (v = .none ∧ s = .none) ∨
+      (isArrayLike v = true ∧ hasShape [5] v = true ∧ ∃ r1 r2 h p1 p2 : Int,
+        flat v = [.fin r1, .fin r2, .fin h, .fin p1, .fin p2] ∧ segmentOK r1 r2 h p1 p2 ∧
+        s = .array ⟨[5], flat v⟩) := by
+  unfold checkCylSeg
+  rw [segmentCfg_eq]
+  cases hc : checkVector (vecCfg "input_checks" "check_format_input_cylinder_segment" 5 false) v with
+  | error e =>
+    simp only [reduceCtorEq, false_iff, not_or, not_and, not_exists]
+    constructor
+    · rintro rfl _
+      have := (vec_ok_iff "input_checks" "check_format_input_cylinder_segment" 5 false PyVal.none Stored.none).mpr (Or.inl ⟨rfl, rfl⟩)
+      rw [hc] at this; cases this
+    · intro ha hs r1 r2 h p1 p2 _ _ _
+      have := (vec_ok_iff "input_checks" "check_format_input_cylinder_segment" 5 false v _).mpr
+        (Or.inr ⟨ha, hs, by simp, rfl⟩)
+      rw [hc] at this; cases this
+  | ok s0 =>
+    rcases (vec_ok_iff _ _ 5 false v s0).mp hc with ⟨rfl, rfl⟩ | ⟨ha, hs, _, rfl⟩
+    · simp only [isArrayLike, Bool.false_eq_true, false_and, or_false, true_and, Except.ok.injEq]
+      exact eq_comm
+    · have hv : v ≠ .none := by rintro rfl; simp [isArrayLike] at ha
+      have hlen : (flat v).length = 5 := by simpa [prod] using flat_length [5] v hs
+      obtain ⟨r1, r2, h, p1, p2, hflat⟩ := list5_fin (flat v) hlen hnan
+      simp only [hv, false_and, false_or, ha, hs, true_and, hflat]
+      by_cases hok : segmentOK r1 r2 h p1 p2
+      · have hb := (not_congr (segment_cases_iff r1 r2 h p1 p2)).mpr (Classical.not_not.mpr hok)
+        simp only [hb, Bool.false_eq_true, if_false, Except.ok.injEq]
+        constructor
+        · rintro rfl
+          exact ⟨r1, r2, h, p1, p2, rfl, hok, rfl⟩
+        · rintro ⟨_, _, _, _, _, _, _, rfl⟩
+          rfl
+      · have hb := (segment_cases_iff r1 r2 h p1 p2).mpr hok
+        simp only [hb, if_true, reduceCtorEq, false_iff, not_exists, not_and]
+        intro a b c d e heq hok'
+        simp only [List.cons.injEq, FVal.fin.injEq, and_true] at heq
+        obtain ⟨rfl, rfl, rfl, rfl, rfl⟩ := heq
+        exact absurd hok' hok
+
+/-- C17 (CylinderSegment.dimension), for entries other than None: accepted ⇔ None or array_like of shape
+(5,) = (r1, r2, h, phi1, phi2) with 0 ≤ r1 ≤ r2, 0 < r2, 0 < h, phi1 ≤ phi2, phi2 − phi1 ≤ 360.  Negative
+sizes, inner radius above outer radius, a reversed or more than 360 degree angle range are rejected.
+(The class docstring asks r1 < r2 and phi1 < phi2 strictly: the code accepts the degenerate r1 = r2 and
+phi1 = phi2, see `cylseg_accepts_degenerate`.) -/
+theorem cylseg_accepts_iff_documented_partial (v : PyVal) (hnan : FVal.nan ∉ flat v) :
+    (∃ s, checkCylSeg v = .ok s) ↔ docSegment v = true := by
+  by_cases hv : v = .none
+  · subst hv
+    simp [cylseg_ok_iff _ _ hnan, docSegment]
+  · rw [docSegment_of_ne_none v hv]
+    simp only [cylseg_ok_iff _ _ hnan, hv, false_and, false_or, Bool.and_eq_true]
+    constructor
+    · rintro ⟨s, ha, hs, r1, r2, h, p1, p2, hflat, hok, _⟩
+      refine ⟨⟨ha, hs⟩, ?_⟩
+      rw [hflat]
+      simpa using hok
+    · rintro ⟨⟨ha, hs⟩, hm⟩
+      split at hm
+      · rename_i r1 r2 h p1 p2 hflat
+        exact ⟨_, ha, hs, r1, r2, h, p1, p2, hflat, by simpa using hm, rfl⟩
+      · cases hm
+
+/-- the exclusion of None entries in `cylseg_accepts_iff_documented_partial` is necessary: None becomes
+nan, every comparison with nan is false, so (1, 2, 1, None, 90) passes all five conditions -/
+theorem cylseg_accepts_nan :
+    checkCylSeg (.seq [.num 1, .num 2, .num 1, .none, .num 90]) =
+      .ok (.array ⟨[5], [.fin 1, .fin 2, .fin 1, .nan, .fin 90]⟩) ∧
+    docSegment (.seq [.num 1, .num 2, .num 1, .none, .num 90]) = false := ⟨by rfl, by decide⟩
+
+/-- docstring and code disagree: the class docstring requires r1 < r2 and phi1 < phi2, the code accepts equality -/
+theorem cylseg_accepts_degenerate :
+    (∃ s, checkCylSeg (.seq [.num 1, .num 1, .num 1, .num 30, .num 30]) = .ok s) := ⟨_, by rfl⟩
+
+/-- C17: `check_format_input_cylinder_segment` rejects only with the library's input error (also for
+None/nan entries): the tuple unpacking cannot fail after the shape check -/
+theorem cylseg_error_is_bad (v : PyVal) (e : Err) (h : checkCylSeg v = .error e) : e = .badUserInput := by
+  unfold checkCylSeg at h
+  cases hc : checkVector segmentCfg v with
+  | error e' =>
+    simp only [hc] at h
+    injection h with h; subst h
+    exact vector_error_is_bad segmentCfg (by simp [segmentCfg]) (by simp [segmentCfg]) v _ hc
+  | ok s0 =>
+    rw [segmentCfg_eq] at hc
+    rcases (vec_ok_iff _ _ 5 false v s0).mp hc with ⟨rfl, rfl⟩ | ⟨ha, hs, _, rfl⟩
+    · rw [segmentCfg_eq, hc] at h; cases h
+    · rw [segmentCfg_eq, hc] at h
+      have hlen : (flat v).length = 5 := by simpa [prod] using flat_length [5] v hs
+      match hf : flat v, hlen with
+      | [x1, x2, x3, x4, x5], _ =>
+        simp only [hf] at h
+        split at h
+        · injection h with h; exact h.symm
+        · cases h
+
+/-- C17 (stored dimension): the float copy, shape (5,) -/
+theorem cylseg_stored (v : PyVal) (s : Stored) (h : checkCylSeg v = .ok s) :
+    (v = .none ∧ s = .none) ∨ s = .array ⟨[5], flat v⟩ := by
+  unfold checkCylSeg at h
+  cases hc : checkVector segmentCfg v with
+  | error e' => simp only [hc] at h; cases h
+  | ok s0 =>
+    rw [segmentCfg_eq] at hc
+    rcases (vec_ok_iff _ _ 5 false v s0).mp hc with ⟨rfl, rfl⟩ | ⟨ha, hs, _, rfl⟩
+    · rw [segmentCfg_eq, hc] at h
+      injection h with h
+      exact Or.inl ⟨rfl, h.symm⟩
+    · rw [segmentCfg_eq, hc] at h
+      simp only at h
+      split at h
+      · split at h
+        · cases h
+        · injection h with h; exact Or.inr h.symm
+      · cases h
+
+example : checkCylSeg (.seq [.num 0, .num 1, .num 1, .num 0, .num 360]) = .ok (.array ⟨[5], [.fin 0, .fin 1, .fin 1, .fin 0, .fin 360]⟩) := by rfl
+example : checkCylSeg (.seq [.num 2, .num 1, .num 1, .num 0, .num 90]) = .error .badUserInput := by rfl   -- r1 > r2
+example : checkCylSeg (.seq [.num 1, .num 2, .num 1, .num 90, .num 0]) = .error .badUserInput := by rfl   -- reversed angles
+example : checkCylSeg (.seq [.num 1, .num 2, .num 1, .num 0, .num 361]) = .error .badUserInput := by rfl  -- more than 360 degrees
+example : checkCylSeg (.seq [.num 1, .num 2, .num (-1), .num 0, .num 90]) = .error .badUserInput := by rfl -- negative height
+example : checkCylSeg (.seq [.num 1, .num 2, .num 1, .num 0]) = .error .badUserInput := by rfl            -- four entries
+example : docSegment (.seq [.num 0, .num 1, .num 1, .num 0, .num 360]) = true := by decide
+
+/-! ## scalar attributes (current, diameter): check_format_input_scalar -/
+
+/-- C17 (scalar attributes), for every value except a complex number: accepted ⇔ None (where allowed) or
+an int/float/numpy real scalar/bool, not negative where the attribute is a size; every other value —
+strings (also numeric ones), numpy.bool_, sequences, 0-d arrays, other objects — raises the library's
+input error; the stored value is `float(value)`. -/
+theorem scalar_accepts_iff_documented_partial (an fn : Bool) (v : PyVal) (hv : v ≠ .cplx) :
+    ((∃ s, checkScalar an fn v = .ok s) ↔ docScalar an fn v = true) ∧
+    (docScalar an fn v = false → checkScalar an fn v = .error .badUserInput) ∧
+    (∀ s, checkScalar an fn v = .ok s → s = scalarValue v) := by
+  cases v with
+  | cplx => exact absurd rfl hv
+  | num n =>
+    have key : checkScalar an fn (.num n) =
+        if (fn && decide (n < 0)) = true then .error .badUserInput else .ok (.scalar (.fin n)) := by
+      cases an <;> cases fn <;> simp [checkScalar, isNumber, pyFloat, FVal.lt]
+    rw [key]
+    by_cases hb : (fn && decide (n < 0)) = true
+    · have hdoc : docScalar an fn (.num n) = false := by
+        simp only [Bool.and_eq_true, decide_eq_true_eq] at hb
+        obtain ⟨rfl, hn⟩ := hb
+        simp only [docScalar, Bool.not_true, Bool.false_or, decide_eq_false_iff_not]
+        omega
+      rw [if_pos hb, hdoc]
+      refine ⟨⟨?_, ?_⟩, fun _ => rfl, ?_⟩
+      · rintro ⟨_, h⟩; cases h
+      · intro h; cases h
+      · intro s h; cases h
+    · have hdoc : docScalar an fn (.num n) = true := by
+        simp only [Bool.and_eq_true, decide_eq_true_eq, not_and] at hb
+        cases fn with
+        | false => simp [docScalar]
+        | true =>
+          have := hb rfl
+          simp only [docScalar, Bool.not_true, Bool.false_or, decide_eq_true_eq]
+          omega
+      rw [if_neg hb, hdoc]
+      refine ⟨⟨fun _ => rfl, fun _ => ⟨_, rfl⟩⟩, ?_, ?_⟩
+      · intro h; cases h
+      · intro s h; injection h with h; exact h.symm
+  | none => cases an <;> cases fn <;> simp [checkScalar, docScalar, isNumber, scalarValue, eq_comm]
+  | bool b => cases an <;> cases fn <;> cases b <;> simp [checkScalar, docScalar, isNumber, pyFloat, scalarValue, FVal.lt, eq_comm]
+  | npbool b => cases an <;> cases fn <;> simp [checkScalar, docScalar, isNumber]
+  | str t => cases an <;> cases fn <;> simp [checkScalar, docScalar, isNumber]
+  | obj => cases an <;> cases fn <;> simp [checkScalar, docScalar, isNumber]
+  | seq xs => cases an <;> cases fn <;> simp [checkScalar, docScalar, isNumber]
+  | arr sh d => cases an <;> cases fn <;> simp [checkScalar, docScalar, isNumber]
+
+/-- the exclusion of complex numbers above is necessary, and is the only one: the scalar validator lets a
+foreign exception (TypeError from `float(inp)`) escape exactly for complex inputs, which pass
+`isinstance(inp, numbers.Number)` -/
+theorem scalar_foreign_iff_complex (an fn : Bool) (v : PyVal) :
+    (∃ x, checkScalar an fn v = .error (.foreign x)) ↔ v = .cplx := by
+  cases v with
+  | cplx => cases an <;> cases fn <;> simp [checkScalar, isNumber, pyFloat]
+  | num n =>
+    have key : checkScalar an fn (.num n) =
+        if (fn && decide (n < 0)) = true then .error .badUserInput else .ok (.scalar (.fin n)) := by
+      cases an <;> cases fn <;> simp [checkScalar, isNumber, pyFloat, FVal.lt]
+    rw [key]
+    split <;> simp
+  | none => cases an <;> cases fn <;> simp [checkScalar, isNumber]
+  | bool b => cases an <;> cases fn <;> cases b <;> simp [checkScalar, isNumber, pyFloat, FVal.lt]
+  | npbool b => cases an <;> cases fn <;> simp [checkScalar, isNumber]
+  | str t => cases an <;> cases fn <;> simp [checkScalar, isNumber]
+  | obj => cases an <;> cases fn <;> simp [checkScalar, isNumber]
+  | seq xs => cases an <;> cases fn <;> simp [checkScalar, isNumber]
+  | arr sh d => cases an <;> cases fn <;> simp [checkScalar, isNumber]
+
+example : checkScalar true true (.num 0) = .ok (.scalar (.fin 0)) := by rfl
+example : checkScalar true true (.num (-1)) = .error .badUserInput := by rfl
+example : checkScalar true false (.num (-1)) = .ok (.scalar (.fin (-1))) := by rfl
+example : checkScalar true true (.str "3") = .error .badUserInput := by rfl
+example : checkScalar true true (.bool true) = .ok (.scalar (.fin 1)) := by rfl
+example : checkScalar true true (.npbool true) = .error .badUserInput := by rfl
+example : checkScalar true true .cplx = .error (.foreign "TypeError") := by rfl
+example : checkScalar false false .none = .error .badUserInput := by rfl
+
+/-! ## check_format_input_vector2 (TriangularMesh.from_mesh) -/
+
+/-- what `check_format_input_vector2` returns, and when: the value is array_like, float-convertible, and
+on the axes that both the array and `shape` have, the sizes given in `shape` are matched -/
+theorem vector2_ok_iff (shape : List (Option Nat)) (v : PyVal) (s : Stored) :
+    checkVector2 shape v = .ok s ↔
+      (isArrayLike v = true ∧ ∃ sh, hasShape sh v = true ∧ shapeAgrees sh shape ∧ s = .array ⟨sh, flat v⟩) := by
+  unfold checkVector2 isArrayLikeCheck makeFloatArray
+  by_cases ha : isArrayLike v = true
+  · simp only [ha, Bool.not_true, Bool.false_eq_true, if_false, true_and]
+    cases hsh : shapeOf v with
+    | none =>
+      simp only [reduceCtorEq, false_iff, not_exists, not_and]
+      intro sh hs
+      rw [(shapeOf_iff_hasShape sh v).mpr hs] at hsh
+      cases hsh
+    | some sh0 =>
+      have hs0 := (shapeOf_iff_hasShape sh0 v).mp hsh
+      simp only
+      cases hz : zipShapeCheck sh0 shape with
+      | error e =>
+        simp only [reduceCtorEq, false_iff, not_exists, not_and]
+        intro sh hs hag
+        have := hasShape_unique _ _ v hs hs0
+        subst this
+        rw [(zipShapeCheck_ok_iff sh shape).mpr hag] at hz
+        cases hz
+      | ok u =>
+        have hag := (zipShapeCheck_ok_iff sh0 shape).mp hz
+        simp only [Except.ok.injEq]
+        constructor
+        · rintro rfl; exact ⟨sh0, hs0, hag, rfl⟩
+        · rintro ⟨sh, hs, _, rfl⟩
+          rw [hasShape_unique _ _ v hs hs0]
+  · have ha' : isArrayLike v = false := by simpa using ha
+    simp [ha']
+
+/-- the shape argument used by TriangularMesh.from_mesh -/
+def meshShape : List (Option Nat) := [Option.none, some 3, some 3]
+
+/-- C17 (from_mesh, only this direction holds): every array_like of the documented shape (n,3,3) is accepted
+and stored as its float copy.  Missing for the full statement, and false of the code (witnesses below):
+the converse — the rank is not compared, so shapes (3,), (n,3), (n,3,3,k) pass as well — and the
+error kind — a wrong axis size raises ValueError, not the library's input error. -/
+theorem vector2_accepts_documented_partial (n : Nat) (v : PyVal) (ha : isArrayLike v = true)
+    (hs : hasShape [n, 3, 3] v = true) : checkVector2 meshShape v = .ok (.array ⟨[n, 3, 3], flat v⟩) := by
+  rw [vector2_ok_iff]
+  refine ⟨ha, _, hs, ?_, rfl⟩
+  intro i d k h1 h2
+  match i with
+  | 0 => simp [meshShape] at h2
+  | 1 => simp [meshShape] at h1 h2; omega
+  | 2 => simp [meshShape] at h1 h2; omega
+  | (j + 3) => simp [meshShape] at h2
+
+/-- witness: a wrong axis size escapes as a foreign ValueError (the property asks for the library's input error) -/
+theorem vector2_bad_shape_is_foreign :
+    checkVector2 meshShape (.seq [.seq [.seq [.num 1, .num 2], .seq [.num 3, .num 4], .seq [.num 5, .num 6]]]) =
+      .error (.foreign "ValueError") := by rfl
+
+/-- witness: the rank is not checked — a flat (3,) vector is accepted where shape (n,3,3) is documented
+(from_mesh then fails in `reshape` with a foreign ValueError) -/
+theorem vector2_accepts_undocumented :
+    checkVector2 meshShape (.seq [.num 1, .num 2, .num 3]) = .ok (.array ⟨[3], [.fin 1, .fin 2, .fin 3]⟩) := by rfl
+
+/-- every rejection of `check_format_input_vector2` is either the library's input error (not array_like,
+not float-convertible) or the ValueError of the shape loop -/
+theorem vector2_error_kinds (shape : List (Option Nat)) (v : PyVal) (e : Err) (h : checkVector2 shape v = .error e) :
+    e = .badUserInput ∨ e = .foreign "ValueError" := by
+  unfold checkVector2 isArrayLikeCheck makeFloatArray at h
+  by_cases ha : isArrayLike v = true
+  · simp only [ha, Bool.not_true, Bool.false_eq_true, if_false] at h
+    cases hsh : shapeOf v with
+    | none => simp only [hsh] at h; injection h with h; exact Or.inl h.symm
+    | some sh0 =>
+      simp only [hsh] at h
+      cases hz : zipShapeCheck sh0 shape with
+      | error e' =>
+        simp only [hz] at h
+        injection h with h; subst h
+        exact Or.inr (zipShapeCheck_error _ _ _ hz)
+      | ok u => simp only [hz] at h; cases h
+  · have ha' : isArrayLike v = false := by simpa using ha
+    simp only [ha', Bool.not_false, if_true] at h
+    injection h with h; exact Or.inl h.symm
+
+example : checkVector2 meshShape (.arr [1, 3, 3] [0, 0, 0, 1, 0, 0, 0, 1, 0]) =
+    .ok (.array ⟨[1, 3, 3], [.fin 0, .fin 0, .fin 0, .fin 1, .fin 0, .fin 0, .fin 0, .fin 1, .fin 0]⟩) := by rfl
+
+/-! ## rejected assignments change nothing -/
+
+/-- C17 (rejected assignment keeps the state): every setter of the form "validate, then assign" leaves
+the stored value as it was when the validator raises, and stores what the validator returned otherwise -/
+theorem setter_reject_keeps_state (check : PyVal → Except Err Stored) (old : Stored) (v : PyVal) :
+    ((setAttrWith check old v).2 ≠ none → (setAttrWith check old v).1 = old) ∧
+    ((setAttrWith check old v).2 = none → check v = .ok (setAttrWith check old v).1) := by
+  unfold setAttrWith
+  cases check v <;> simp
+
+/-- a rejected assignment leaves the stored value as it was; an accepted one stores the validated copy -/
+theorem reject_keeps_state (cfg : Attr.Row) (old : Stored) (v : PyVal) :
+    ((setAttr cfg old v).2 ≠ none → (setAttr cfg old v).1 = old) ∧
+    ((setAttr cfg old v).2 = none → checkVector cfg v = .ok (setAttr cfg old v).1) :=
+  setter_reject_keeps_state (checkVector cfg) old v
+
+/-- C17 (Sensor): a rejected `pixel` or `handedness` assignment raises the library's input error and leaves
+both attributes unchanged; an accepted one changes only the assigned attribute, to the validated copy.
+(The pixel setter validates into a local variable and assigns last.) -/
+theorem sensor_reject_keeps_state (st : SensorState) (v : PyVal) :
+    (∀ e, (st.setPixel v).2 = some e → e = .badUserInput ∧ (st.setPixel v).1 = st) ∧
+    ((st.setPixel v).2 = none → checkPixel v = .ok (st.setPixel v).1.pixel ∧ (st.setPixel v).1.handedness = st.handedness) ∧
+    (∀ e, (st.setHandedness v).2 = some e → e = .badUserInput ∧ (st.setHandedness v).1 = st) ∧
+    ((st.setHandedness v).2 = none →
+      checkHandedness v = .ok (st.setHandedness v).1.handedness ∧ (st.setHandedness v).1.pixel = st.pixel) := by
+  refine ⟨?_, ?_, ?_, ?_⟩
+  · intro e h
+    unfold SensorState.setPixel at h ⊢
+    cases hc : checkPixel v with
+    | error e' =>
+      simp only [hc, Option.some.injEq] at h ⊢
+      subst h
+      exact ⟨pixel_error_is_bad v _ hc, trivial⟩
+    | ok s => simp [hc] at h
+  · intro h
+    unfold SensorState.setPixel at h ⊢
+    cases hc : checkPixel v with
+    | error e' => simp [hc] at h
+    | ok s => simp
+  · intro e h
+    unfold SensorState.setHandedness at h ⊢
+    cases hc : checkHandedness v with
+    | error e' =>
+      simp only [hc, Option.some.injEq] at h ⊢
+      subst h
+      refine ⟨?_, trivial⟩
+      have := (handedness_accepts_iff_documented v).2.1
+      cases hd : docHandedness v with
+      | false => rw [this hd] at hc; injection hc with hc; exact hc.symm
       | true =>
-        have : vals.any (· ≤ 0) = false := by
-          simp only [List.any_eq_false, decide_eq_true_eq, Int.not_le]
-          exact hpos rfl
-        simp [this]
+        obtain ⟨s, hs⟩ := (handedness_accepts_iff_documented v).1.mpr hd
+        rw [hs] at hc; cases hc
+    | ok s => simp [hc] at h
+  · intro h
+    unfold SensorState.setHandedness at h ⊢
+    cases hc : checkHandedness v with
+    | error e' => simp [hc] at h
+    | ok s => simp
+
+/-- C17 (position setter): a rejected position raises the library's input error and leaves position and
+orientation path as they were; an accepted one stores the (m,3) float path and the orientation path gets
+the same length m -/
+theorem position_reject_keeps_state (st : GeoState) (v : PyVal) :
+    (∀ e, (st.setPosition v).2 = some e → e = .badUserInput ∧ (st.setPosition v).1 = st) ∧
+    ((st.setPosition v).2 = none →
+      ∃ m, 1 ≤ m ∧ (st.setPosition v).1 = ⟨.array ⟨[m, 3], flat v⟩, m⟩) := by
+  refine ⟨?_, ?_⟩
+  · intro e h
+    unfold GeoState.setPosition at h ⊢
+    cases hc : checkVector positionCfg v with
+    | error e' =>
+      simp only [hc, Option.some.injEq] at h ⊢
+      subst h
+      exact ⟨position_error_is_bad v _ hc, trivial⟩
+    | ok s => simp [hc] at h
+  · intro h
+    unfold GeoState.setPosition at h ⊢
+    cases hc : checkVector positionCfg v with
+    | error e' => simp [hc] at h
+    | ok s =>
+      obtain ⟨m, hm, rfl, _⟩ := position_stored v s hc
+      exact ⟨m, hm, rfl⟩
+
+example : (SensorState.mk (.array ⟨[3], [.fin 1, .fin 2, .fin 3]⟩) (.text "right")).setPixel (.arr [0, 3] []) =
+    (⟨.array ⟨[3], [.fin 1, .fin 2, .fin 3]⟩, .text "right"⟩, some .badUserInput) := by rfl
+example : (GeoState.mk (.array ⟨[1, 3], [.fin 0, .fin 0, .fin 0]⟩) 1).setPosition (.seq [.seq [.num 1, .num 2, .num 3], .seq [.num 4, .num 5, .num 6]]) =
+    (⟨.array ⟨[2, 3], [.fin 1, .fin 2, .fin 3, .fin 4, .fin 5, .fin 6]⟩, 2⟩, none) := by rfl
+
+/-! ## the generated tables: which validator with which arguments each setter calls; the source the model mirrors -/
 
 /-- every vector-valued attribute of the object classes is configured as its documentation says
 (checked against the table regenerated from the setters' source on every run) -/
 theorem table_is_documented :
     Attr.table.filter (fun r => r.validator == "check_format_input_vector") =
-      [ ⟨"BaseGeo", "position", "check_format_input_vector", [1, 2], 3, 0, false, false, false, true⟩,
+      [ positionCfg,
         vecCfg "BaseMagnet" "magnetization" 3 false,
         vecCfg "BaseMagnet" "polarization" 3 false,
         vecCfg "Cuboid" "dimension" 3 true,
         vecCfg "Cylinder" "dimension" 2 true,
         vecCfg "Dipole" "moment" 3 false,
-        ⟨"Sensor", "pixel", "check_format_input_vector", [], 3, 0, true, false, false, false⟩,
-        ⟨"Tetrahedron", "vertices", "check_format_input_vector", [2], 3, 4, true, false, false, false⟩,
-        ⟨"Triangle", "vertices", "check_format_input_vector", [2], 3, 3, true, false, false, false⟩ ] := by
+        pixelCfg,
+        tetrahedronCfg,
+        triangleCfg ] := by
   decide
 
-/-- a rejected assignment leaves the stored value as it was; an accepted one stores the validated copy -/
-theorem reject_keeps_state (cfg : Attr.Row) (old : Stored) (v : PyVal) :
-    ((setAttr cfg old v).2 ≠ none → (setAttr cfg old v).1 = old) ∧
-    ((setAttr cfg old v).2 = none → checkVector cfg v = .ok (setAttr cfg old v).1) := by
-  unfold setAttr
-  cases checkVector cfg v <;> simp
+/-- the remaining validated attributes: scalar ones with their flags (diameters must not be negative),
+CylinderSegment.dimension and Polyline.vertices with their dedicated validators -/
+theorem table_other_validators :
+    (Attr.table.filter (fun r => r.validator != "check_format_input_vector")).map
+        (fun r => (r.cls, r.attr, r.validator, r.allowNone, r.forbidNegative)) =
+      [ ("BaseCurrent", "current", "check_format_input_scalar", true, false),
+        ("BaseGeo", "orientation", "check_format_input_orientation", false, false),
+        ("Circle", "diameter", "check_format_input_scalar", true, true),
+        ("CylinderSegment", "dimension", "check_format_input_cylinder_segment", false, false),
+        ("Polyline", "vertices", "check_format_input_vertices", false, false),
+        ("Sphere", "diameter", "check_format_input_scalar", true, true) ] := by
+  decide
 
-example : checkVector (vecCfg "Cuboid" "dimension" 3 true) (.seq [.num 1, .num 2, .num 3]) = .ok (some ([3], [1, 2, 3])) := by rfl
-example : checkVector (vecCfg "Cuboid" "dimension" 3 true) (.seq [.num 1, .num (-2), .num 3]) = .error .badUserInput := by rfl
-example : checkVector (vecCfg "Cuboid" "dimension" 3 true) (.seq [.seq [.num 1, .num 2, .num 3]]) = .error .badUserInput := by rfl
+/-- the calls of the generic vector validator inside check_format_input_vertices and
+check_format_input_cylinder_segment carry the arguments the model uses -/
+theorem inner_is_modelled : verticesCfg ∈ Attr.inner ∧ segmentCfg ∈ Attr.inner := by
+  decide
+
+/-- C17 (every vector attribute of the regenerated table, never a foreign error): whatever value is
+assigned to position, magnetization, polarization, moment, dimension (Cuboid, Cylinder), pixel or
+vertices (Triangle, Tetrahedron), a rejection is the library's input error -/
+theorem table_rejects_with_input_error (r : Attr.Row) (hr : r ∈ Attr.table)
+    (hv : r.validator = "check_format_input_vector") (v : PyVal) (e : Err) (h : checkVector r v = .error e) :
+    e = .badUserInput := by
+  have key : ∀ r ∈ Attr.table, r.validator = "check_format_input_vector" →
+      0 ∉ r.dims ∧ (r.reshape = true → r.shapeM1 = 3) := by decide
+  obtain ⟨h0, h3⟩ := key r hr hv
+  exact vector_error_is_bad r h0 h3 v e h
+
+/-- the five geometric conditions of check_format_input_cylinder_segment as the source states them now
+(the model's `checkCylSeg` and the spec's `segmentOK` were written against exactly these) -/
+theorem segConds_is_modelled :
+    Attr.segConds =
+      [ ("unpack", "(r1, r2, h, phi1, phi2) = inp"),
+        ("case2", "r1 > r2"),
+        ("case3", "phi1 > phi2"),
+        ("case4", "phi2 - phi1 > 360"),
+        ("case5", "(r1 < 0) | (r2 <= 0) | (h <= 0)"),
+        ("raise-if", "case2 | case3 | case4 | case5") ] := by
+  decide
+
+/-- the control-flow skeleton (tests, assignments, raises and returns, in source order) of every function
+modelled by hand in Model/Validators.lean, as the source states it now -/
+theorem skeleton_is_modelled :
+    Attr.skeleton =
+      [ ("is_array_like", ["if not isinstance(inp, (list, tuple, np.ndarray))", "  raise MagpylibBadUserInput"]),
+        ("make_float_array", ["try", "  inp_array = np.array(inp, dtype=float)", "except Exception", "  raise MagpylibBadUserInput", "return inp_array"]),
+        ("check_array_shape", ["if inp.ndim in dims", "  if shape_m1 == 'any' or inp.shape[-1] == shape_m1", "    if length is None or len(inp) == length", "      return None", "raise MagpylibBadUserInput"]),
+        ("check_format_input_scalar", ["if allow_None", "  if inp is None", "    return None", "if not isinstance(inp, numbers.Number)", "  raise MagpylibBadUserInput", "inp = float(inp)", "if forbid_negative", "  if inp < 0", "    raise MagpylibBadUserInput", "return inp"]),
+        ("check_format_input_vector", ["if allow_None", "  if inp is None", "    return None", "is_array_like(...)", "inp = make_float_array(...)", "check_array_shape(...)", "if isinstance(reshape, tuple)", "  if inp.size == 0", "    raise MagpylibBadUserInput", "  return np.reshape(inp, reshape)", "if forbid_negative0", "  if np.any(inp <= 0)", "    raise MagpylibBadUserInput", "return inp"]),
+        ("check_format_input_vector2", ["is_array_like(...)", "inp = make_float_array(...)", "for (d1, d2) in zip(inp.shape, shape)", "  if d2 is not None", "    if d1 != d2", "      raise ValueError", "return inp"]),
+        ("check_format_input_vertices", ["inp = check_format_input_vector(...)", "if inp is not None", "  if inp.shape[0] < 2", "    raise MagpylibBadUserInput", "return inp"]),
+        ("Sensor.pixel", ["pixel = check_format_input_vector(...)", "if pixel is not None and pixel.size == 0", "  raise MagpylibBadUserInput", "self._pixel = pixel"]),
+        ("Sensor.handedness", ["if not (isinstance(val, str) and val in {'right', 'left'})", "  raise MagpylibBadUserInput", "self._handedness = val"]) ] := by
+  decide
+
 end MagpyVerif.C17
